@@ -3,6 +3,8 @@ package main
 import (
 	"fmt"
 	"math"
+
+	"github.com/tdakkota/docker-logql/internal/lokiapi"
 	"math/big"
 	"math/rand"
 	"sort"
@@ -381,6 +383,12 @@ func metricImplOnce(t MetricCase) mResult {
 		}
 		return mResult{Err: cls}
 	}
+	return metricDataResult(data)
+}
+
+func metricDataSexp(data lokiapi.QueryResponseData) Sexp { return metricDataResult(data).Sexp() }
+
+func metricDataResult(data lokiapi.QueryResponseData) mResult {
 	parse := func(s string) float64 {
 		f, err := strconv.ParseFloat(s, 64)
 		if err != nil {
@@ -550,7 +558,38 @@ func genMRecs(r *rand.Rand, n int) []LRec {
 	return recs
 }
 
+// asciiBodiesIfRegex: the regex environment model is byte-level ASCII; when the query has a regex
+// line filter, multi-byte lines are replaced (bytes_over_time over non-ASCII lines stays covered by
+// the regex-free cases).
+func asciiBodiesIfRegex(t *MetricCase) {
+	has := false
+	var walk func(e *MExpr)
+	walk = func(e *MExpr) {
+		for _, st := range e.Stages {
+			if st.Re != nil {
+				has = true
+			}
+		}
+		if e.A != nil {
+			walk(e.A)
+		}
+		if e.B != nil {
+			walk(e.B)
+		}
+	}
+	walk(&t.E)
+	if !has {
+		return
+	}
+	for i := range t.Recs {
+		if t.Recs[i].Body == "é" {
+			t.Recs[i].Body = "e"
+		}
+	}
+}
+
 func genParams(r *rand.Rand, t *MetricCase) {
+	asciiBodiesIfRegex(t)
 	start := mT0 + int64(r.Intn(8))
 	if r.Intn(3) == 0 {
 		t.Start, t.End, t.Step = start*1e9, start*1e9, 0
